@@ -345,6 +345,9 @@ def write_baseline():
     from contracts.property_map import PYVC_MODULES
 
     recs = run_modules(PYVC_MODULES, jobs=12)
+    from pyvc import frames
+
+    recs += frames.run(list(frames.CHECKS), "-")
     out = {}
     for r in recs:
         out[r["task"]] = {o["name"]: o["status"] for o in r["obligations"]}
